@@ -294,7 +294,11 @@ class OptionManager():
                                     or isinstance(v, int):
                 v2 = [v]
             elif hasattr(v, "__iter__"):
-                v2 = v
+                # Store the values as a list: a tuple does not compare
+                # equal to the list read back from json, a range cannot
+                # be written to json and a generator is spent by the
+                # product below.
+                v2 = list(v)
             else:
                 errmsg = "Expected an iterable, a float,"\
                          + f" an int or a string, got {type(v)}."
